@@ -67,11 +67,12 @@ def twosided_2_onesided(data):
         array([ 10.,   4.,   6.,   8.])
 
     """
-    assert len(data) % 2 == 0
     N = len(data)
     psd = np.array(data[0:N//2+1]) * 2.
     psd[0] /= 2.
-    psd[-1] = data[-1]
+    if N % 2 == 0:
+        # the Nyquist bin (slot N/2 of the two-sided layout) has no mirror image
+        psd[-1] /= 2.
     return psd
 
 
@@ -89,26 +90,23 @@ def onesided_2_twosided(data):
         array([ 10.,   2.,   3.,   3., 2., 8.])
 
     """
-    psd = np.concatenate((data[0:-1], cshift(data[-1:0:-1], -1)))/2.
+    data = np.asarray(data)
+    # even-length two-sided layout: bins 0..N/2 followed by the mirrored interior bins
+    psd = np.concatenate((data[0:-1], data[-1:0:-1]))/2.
     psd[0] *= 2.
-    psd[-1] *= 2.
+    psd[len(data)-1] *= 2.
     return psd
 
 
 def twosided_2_centerdc(data):
     """Convert a two-sided PSD to a center-dc PSD"""
-    N = len(data)
-    # could us int() or // in python 3
-    newpsd = np.concatenate((cshift(data[N//2:], 1), data[0:N//2]))
-    newpsd[0] = data[-1]
-    return newpsd
+    # slot a of the result holds bin a - N//2, as Range.centerdc reports it
+    return np.fft.fftshift(np.asarray(data))
 
 
 def centerdc_2_twosided(data):
     """Convert a center-dc PSD to a twosided PSD"""
-    N = len(data)
-    newpsd = np.concatenate((data[N//2:], (cshift(data[0:N//2], -1))))
-    return newpsd
+    return np.fft.ifftshift(np.asarray(data))
 
 
 def twosided(data):
